@@ -20,6 +20,7 @@ import (
 
 	"github.com/containerd/nri/pkg/adaptation"
 	"github.com/containerd/nri/pkg/api"
+	nrinet "github.com/containerd/nri/pkg/net"
 )
 
 type c20Dev struct {
@@ -382,6 +383,85 @@ func c20Build(dir string) error {
 	return nil
 }
 
+// c20Raw drives the ulimit adjuster alone, as a child process on a pre-connected socket, from a raw runtime:
+// what the plugin itself returns is observed, not what the adaptation makes of it. That decides annotations
+// which name one rlimit type twice (in any spelling): the plugin's adjustment carries exactly the described
+// entries, both of them, in order.
+func c20Raw(c *ev.ChildEnv, res *ev.Result, plugins string, g *mgen, n int) {
+	sp, err := nrinet.NewSocketPair()
+	if err != nil {
+		res.Note("socketpair: %v", err)
+		return
+	}
+	conn, err := sp.LocalConn()
+	if err != nil {
+		res.Note("socketpair: %v", err)
+		return
+	}
+	rr, err := rig.NewRawRuntime(conn)
+	if err != nil {
+		res.Note("raw runtime: %v", err)
+		return
+	}
+	defer rr.Close()
+	cmd := exec.Command(filepath.Join(plugins, "20-ulimit-adjuster"))
+	cmd.Env = []string{"NRI_PLUGIN_SOCKET=3", "NRI_PLUGIN_NAME=ulimit-adjuster", "NRI_PLUGIN_IDX=20"}
+	cmd.ExtraFiles = []*os.File{sp.PeerFile()}
+	if err := cmd.Start(); err != nil {
+		res.Note("starting the ulimit adjuster: %v", err)
+		return
+	}
+	sp.PeerClose()
+	defer func() { cmd.Process.Kill(); cmd.Wait() }()
+	select {
+	case <-rr.Registered:
+	case <-time.After(20 * time.Second):
+		res.Note("the ulimit adjuster did not register with the raw runtime")
+		res.Inconcl()
+		return
+	}
+	ctx, cancel := context.WithTimeout(context.Background(), 120*time.Second)
+	defer cancel()
+	if _, err := rr.Plugin.Configure(ctx, &api.ConfigureRequest{RuntimeName: "rt", RuntimeVersion: "1", RegistrationTimeout: 10000, RequestTimeout: 10000}); err != nil {
+		res.Note("configure: %v", err)
+		return
+	}
+	if _, err := rr.Plugin.Synchronize(ctx, &api.SynchronizeRequest{}); err != nil {
+		res.Note("synchronize: %v", err)
+		return
+	}
+	for i := 0; i < n; i++ {
+		id := fmt.Sprintf("raw-b%dn%d", c.Batch, i)
+		raw, norm := g.c20Ulimits(2 + g.rng.IntN(3))
+		// repeat one of the types, spelled differently, somewhere later in the list
+		k := g.rng.IntN(len(raw))
+		name := strings.TrimPrefix(norm[k].Type, "RLIMIT_")
+		dup := c20Ulimit{Type: []string{name, "RLIMIT_" + name, strings.ToLower(name), "rlimit_" + strings.ToLower(name)}[g.rng.IntN(4)], Soft: uint64(g.rng.IntN(1000)), Hard: uint64(1000 + g.rng.IntN(1000))}
+		at := k + 1 + g.rng.IntN(len(raw)-k)
+		raw = append(raw[:at:at], append([]c20Ulimit{dup}, raw[at:]...)...)
+		norm = append(norm[:at:at], append([]c20Ulimit{{Type: "RLIMIT_" + name, Soft: dup.Soft, Hard: dup.Hard}}, norm[at:]...)...)
+		payload, enc := c20Encode(g.rng, raw, ulimitOrder)
+		cs := &c20Case{ID: id, Container: "main", Annotations: map[string]string{ulKey + "/container.main": payload}, Rlimits: norm, Tags: []string{"raw-runtime", "repeated-rlimit-type", enc}}
+		res.Eval()
+		pod := &api.PodSandbox{Id: "pod-" + id, Name: "pod", Namespace: "ns", Annotations: cs.Annotations}
+		rpl, err := rr.Plugin.CreateContainer(ctx, &api.CreateContainerRequest{Pod: pod, Container: &api.Container{Id: "ctr-" + id, PodSandboxId: pod.Id, Name: "main"}})
+		if err != nil {
+			res.Violate("C20/well-formed-rejected", fmt.Sprintf("the ulimit adjuster rejected an annotation naming one rlimit type twice: %v", err), cs)
+			continue
+		}
+		var got []c20Ulimit
+		for _, l := range rpl.GetAdjust().GetRlimits() {
+			got = append(got, c20Ulimit{Type: l.Type, Hard: l.Hard, Soft: l.Soft})
+		}
+		x, _ := json.Marshal(got)
+		y, _ := json.Marshal(norm)
+		if string(x) != string(y) {
+			res.Violate("C20/rlimits-differ", fmt.Sprintf("the ulimit adjuster's own adjustment carries rlimits %v, the container-scoped annotation describes %v", got, norm), cs)
+		}
+		res.Seen("raw|repeated-type|" + enc)
+	}
+}
+
 func runC20(c *ev.ChildEnv, res *ev.Result) {
 	rig.QuietLogs()
 	adaptation.SetPluginRequestTimeout(10 * time.Second)
@@ -404,6 +484,8 @@ func runC20(c *ev.ChildEnv, res *ev.Result) {
 	}
 	defer rt.Stop()
 	g := newMgen(uint64(c.Seed), uint64(c.Batch)+2000)
+	c.WAL("raw-runtime cases")
+	c20Raw(c, res, plugins, newMgen(uint64(c.Seed), uint64(c.Batch)+2100), tierN(c.Tier, 40, 1000))
 	n := tierN(c.Tier, 1200, 40000) / c.Batches
 	for i := 0; i < n; i++ {
 		cs := g.genC20(fmt.Sprintf("b%dn%d", c.Batch, i))
